@@ -89,6 +89,19 @@ def persist? (s : Info) : Option Info :=
     | none => some { s with dist := none }
     | some j => (Dist.unmarshal? j).map fun d' => { s with dist := some d' }
 
+/-! ### `.frac-cache` (fracmanager/sealed_frac_cache.go)
+
+`SaveCacheToDisk` writes `json.Marshal(map[name]*Info)`, `LoadFromDisk` reads it back with ONE `json.Unmarshal` into the
+map: every entry gets its own freshly allocated `Info` (and `MIDsDistribution`), so the loaded info of a fraction is a
+function of that fraction's entry alone, and nothing is added to it on load. -/
+
+/-- `LoadFromDisk ∘ SaveCacheToDisk` on the entries `(name, info)`; inner `none` = that entry panics while decoding -/
+def cacheLoad (entries : List (String × Info)) : List (String × Option Info) :=
+  entries.map fun e => (e.1, persist? e.2)
+
+/-- an entry written by an older release: no `distribution` (and no `sealing_time`, which pruning never reads) -/
+def legacyEntry (s : Info) : Info := { s with dist := none }
+
 /-- the stub ID `systemMID = math.MaxUint64` stored at LID 0 of every active fraction -/
 def systemMID : Nat := 18446744073709551615
 
@@ -319,16 +332,24 @@ theorem persist_build {c : Consts} (hc : GoodConsts c) {s : Info} (hnd : s.dist 
 
 /-! ## bulks that are (partially) retried: the duplicate filter of the index worker
 
-`appendWorker`: `appended := DocsPositions.SetMultiple(collector.IDs, ..)` keeps the IDs that are not stored yet (a
-second occurrence inside the bulk is not appended either); when `len(appended) != len(collector.IDs)` the collector
-is filtered (`metaDataCollector.Filter(appended)`): the surviving entries are those of `collector.IDs` whose ID is in
-`appended`, in bulk order, `MinMID/MaxMID` are recomputed over them from `MaxUint64 / 0` with two independent
-comparisons (as `AppendMeta` does while collecting), `DocsCounter = len(appended)`; then `UpdateStats`. -/
+`appendWorker`: `appended := DocsPositions.SetMultiple(collector.IDs, collector.Positions)` keeps an entry when its ID is
+not stored yet OR is stored with the SAME position (`!ok || savedPos == pos[i]`: a nested meta points to its parent's
+position, so the same ID is appended again); a stored ID with another position (a retried document, or a second
+occurrence of an ID inside the bulk) is dropped.  When `len(appended) != len(collector.IDs)` the collector is filtered
+(`metaDataCollector.Filter(appended)`): the surviving entries are those of `collector.IDs` whose ID is in `appended`,
+in bulk order, `MinMID/MaxMID` are recomputed over them from `MaxUint64 / 0` with two independent comparisons (as
+`AppendMeta` does while collecting), `DocsCounter = len(appended)`; then `UpdateStats`.
+A bulk is a list of `((mid, rid), pos)`: the collector's `IDs` and `Positions`. -/
 
-/-- `DocsPositions.SetMultiple` for IDs `(mid, rid)` (plain documents) -/
-def setMultiple (stored : List (Nat × Nat)) : List (Nat × Nat) → List (Nat × Nat)
-  | [] => []
-  | id :: rest => if id ∈ stored then setMultiple stored rest else id :: setMultiple (id :: stored) rest
+abbrev Entry := (Nat × Nat) × Nat
+
+/-- `DocsPositions.SetMultiple`: the new map and the `appended` slice -/
+def setMultiple (dp : List Entry) : List Entry → List Entry × List (Nat × Nat)
+  | [] => (dp, [])
+  | (id, p) :: rest =>
+    match dp.lookup id with
+    | none => ((setMultiple ((id, p) :: dp) rest).1, id :: (setMultiple ((id, p) :: dp) rest).2)
+    | some q => if q = p then ((setMultiple dp rest).1, id :: (setMultiple dp rest).2) else setMultiple dp rest
 
 /-- the collector's IDs after the optional `Filter(appended)` -/
 def survivors (bulk appended : List (Nat × Nat)) : List (Nat × Nat) :=
@@ -337,20 +358,34 @@ def survivors (bulk appended : List (Nat × Nat)) : List (Nat × Nat) :=
 /-- `metaDataCollector` stats of a list of IDs: `(MinMID, MaxMID)` - the same fold in `AppendMeta` and in `Filter` -/
 def collectorStats (ids : List (Nat × Nat)) : Nat × Nat := (batchMin (ids.map Prod.fst), batchMax (ids.map Prod.fst))
 
-/-- one bulk through the index worker of an active fraction: `(info, stored IDs)` -/
-def ingestBulk (st : Info × List (Nat × Nat)) (bulk : List (Nat × Nat)) : Info × List (Nat × Nat) :=
-  let appended := setMultiple st.2 bulk
-  let surv := survivors bulk appended
-  (updateStats st.1 (collectorStats surv).1 (collectorStats surv).2 appended.length, st.2 ++ appended)
+/-- an active fraction as the index worker sees it: its info, the positions map, the IDs appended so far (`MIDs/RIDs`
+after the stub; a nested meta contributes its ID again) -/
+structure AState where
+  info : Info
+  pos : List Entry
+  ids : List (Nat × Nat)
+deriving Repr, DecidableEq
 
-theorem setMultiple_sublist (stored bulk : List (Nat × Nat)) : (setMultiple stored bulk).Sublist bulk := by
-  induction bulk generalizing stored with
+def newActive (ct : Nat) : AState := ⟨newInfo ct, [], []⟩
+
+/-- one bulk through the index worker of an active fraction -/
+def ingestBulk (st : AState) (bulk : List Entry) : AState :=
+  let r := setMultiple st.pos bulk
+  let surv := survivors (bulk.map Prod.fst) r.2
+  ⟨updateStats st.info (collectorStats surv).1 (collectorStats surv).2 r.2.length, r.1, st.ids ++ r.2⟩
+
+theorem setMultiple_sublist (dp bulk : List Entry) : (setMultiple dp bulk).2.Sublist (bulk.map Prod.fst) := by
+  induction bulk generalizing dp with
   | nil => exact List.Sublist.slnil
-  | cons id rest ih =>
+  | cons e rest ih =>
+    obtain ⟨id, p⟩ := e
     unfold setMultiple
+    simp only [List.map_cons]
     split
-    · exact List.Sublist.cons _ (ih stored)
-    · exact List.Sublist.cons_cons _ (ih (id :: stored))
+    · exact List.Sublist.cons_cons _ (ih _)
+    · split
+      · exact List.Sublist.cons_cons _ (ih _)
+      · exact List.Sublist.cons _ (ih _)
 
 theorem mem_survivors {bulk appended : List (Nat × Nat)} (hsub : appended.Sublist bulk) {id : Nat × Nat}
     (h : id ∈ appended) : id ∈ survivors bulk appended := by
@@ -359,12 +394,13 @@ theorem mem_survivors {bulk appended : List (Nat × Nat)} (hsub : appended.Subli
   · exact hsub.subset h
   · rw [List.mem_filter]; exact ⟨hsub.subset h, by simpa using h⟩
 
-/-- the borders cover every stored document after any history of (partially retried, arbitrarily ordered) bulks -/
-theorem covers_ingest {st : Info × List (Nat × Nat)} (h : Covers st.1 (st.2.map Prod.fst)) (bulk : List (Nat × Nat)) :
-    Covers (ingestBulk st bulk).1 ((ingestBulk st bulk).2.map Prod.fst) := by
+/-- the borders cover every appended ID after any history of (partially retried, nested, arbitrarily ordered) bulks,
+and `DocsTotal` counts them -/
+theorem covers_ingest {st : AState} (h : Covers st.info (st.ids.map Prod.fst)) (bulk : List Entry) :
+    Covers (ingestBulk st bulk).info ((ingestBulk st bulk).ids.map Prod.fst) := by
   simp only [ingestBulk, List.map_append]
-  have hsub := setMultiple_sublist st.2 bulk
-  have hlen : (setMultiple st.2 bulk).length = ((setMultiple st.2 bulk).map Prod.fst).length := by simp
+  have hsub := setMultiple_sublist st.pos bulk
+  have hlen : (setMultiple st.pos bulk).2.length = ((setMultiple st.pos bulk).2.map Prod.fst).length := by simp
   rw [hlen]
   apply covers_updateStats h
   · intro m hm
@@ -374,15 +410,15 @@ theorem covers_ingest {st : Info × List (Nat × Nat)} (h : Covers st.1 (st.2.ma
     rcases List.mem_map.1 hm with ⟨id, hid, rfl⟩
     exact (batchMax_ge _ 0).2 _ (List.mem_map_of_mem (mem_survivors hsub hid))
 
-theorem covers_ingest_foldl {st : Info × List (Nat × Nat)} (h : Covers st.1 (st.2.map Prod.fst))
-    (hist : List (List (Nat × Nat))) :
-    Covers (hist.foldl ingestBulk st).1 ((hist.foldl ingestBulk st).2.map Prod.fst) := by
+theorem covers_ingest_foldl {st : AState} (h : Covers st.info (st.ids.map Prod.fst)) (hist : List (List Entry)) :
+    Covers (hist.foldl ingestBulk st).info ((hist.foldl ingestBulk st).ids.map Prod.fst) := by
   induction hist generalizing st with
   | nil => exact h
   | cons b bs ih => simp only [List.foldl_cons]; exact ih (covers_ingest h b)
 
-theorem ingest_dist (st : Info × List (Nat × Nat)) (hist : List (List (Nat × Nat))) :
-    (hist.foldl ingestBulk st).1.dist = st.1.dist ∧ (hist.foldl ingestBulk st).1.creationTime = st.1.creationTime := by
+theorem ingest_dist (st : AState) (hist : List (List Entry)) :
+    (hist.foldl ingestBulk st).info.dist = st.info.dist ∧
+    (hist.foldl ingestBulk st).info.creationTime = st.info.creationTime := by
   induction hist generalizing st with
   | nil => exact ⟨rfl, rfl⟩
   | cons b bs ih => simp only [List.foldl_cons]; exact ih (ingestBulk st b)
